@@ -192,3 +192,24 @@ pub proof fn lemma_hermes_answers_survive_reencoding(h1: &SourceMapHermes, h2: &
         }
     }
 }
+
+// ---- C18, last sentence: "every serialised map, index or Hermes map is recognised as a source map by the detection predicate" ----
+/// the keys the detection predicate sees when it parses the text of a document: a key is there exactly when the document has a value for it
+/// (serde writes `null` for a valueless field without a skip rule and reads `null` back as "no value")
+pub open spec fn keys_of(m: MinimalRawSourceMap, raw: RawSourceMap) -> bool {
+    (m.version is Some <==> raw.version is Some) && (m.file is Some <==> raw.file is Some) && (m.sources is Some <==> raw.sources is Some)
+    && (m.source_root is Some <==> raw.source_root is Some) && (m.sources_content is Some <==> raw.sources_content is Some)
+    && (m.sections is Some <==> raw.sections is Some) && (m.names is Some <==> raw.names is Some) && (m.mappings is Some <==> raw.mappings is Some)
+}
+//@ lemma_written_documents_are_recognised [C18 C03]
+/// whatever document as_raw_sourcemap may return for a regular, index or Hermes map (its contract), the detection rule accepts its keys
+pub proof fn lemma_written_documents_are_recognised(dm: DecodedMap, raw: RawSourceMap, m: MinimalRawSourceMap)
+    requires raw_of_dm(dm, raw), keys_of(m, raw)
+    ensures detect_rule(m), has_map_keys(m)
+{
+    match dm {
+        DecodedMap::Regular(sm) => { assert(raw_of_regular(&sm, raw)); }
+        DecodedMap::Index(i) => { assert(raw_of_index(&i, raw)); }
+        DecodedMap::Hermes(h) => { assert(raw_of_hermes(&h, raw)); }
+    }
+}
